@@ -83,6 +83,12 @@ Theorem C11_source_cull : forall s, Inv0 s -> src_cull s = m_cull gen_cfg s.
 Proof. exact source_cull. Qed.
 Print Assumptions C11_source_cull.
 
+(* (T) likewise the text of _add_dead (bisect, dints[int_idx - 1] with Python's negative-index wrap, the
+   two chained merge tests, insert), for every state and every slot, with no hypothesis *)
+Theorem C11_source_add_dead : forall s r, src_add_dead s (Z.of_nat r) = set_dead s (add_dead (dead s) r).
+Proof. exact source_add_dead. Qed.
+Print Assumptions C11_source_add_dead.
+
 (* s[a:b:k], k > 0: iter_slice + islice = the list slice of CPython *)
 Theorem C11_slice : forall s a b k, Inv s -> valid_op (m_live s) (Slice a b k) = true ->
   m_slice s a b k = snd (spec_step (m_live s) (Slice a b k)).
